@@ -558,6 +558,42 @@ theorem unmerged_iff_failures (pre : Fs) (es : List Entry) (fin : Fs) :
       · exact h
       · rw [if_neg h] at h4; cases h4
 
+/-! ## `get_remove_cset` under aliasing -/
+
+theorem mem_keptNames_P {resP resF : Path → Path} {new : List Entry} {x : Entry} (hx : x ∈ new) :
+    resP x.loc ∈ keptNames resP resF new := by
+  unfold keptNames
+  rw [List.mem_flatMap]
+  exact ⟨x, hx, List.mem_cons_self⟩
+
+theorem mem_keptNames_F {resP resF : Path → Path} {new : List Entry} {x : Entry} (hx : x ∈ new)
+    (hd : x.isDir = true) : resF x.loc ∈ keptNames resP resF new := by
+  unfold keptNames
+  rw [List.mem_flatMap]
+  exact ⟨x, hx, by simp [hd]⟩
+
+theorem removeCsetOf_id (live new : List Entry) :
+    removeCsetOf id id live new = live.filter (fun e => decide (e.loc ∉ new.map (·.loc))) := by
+  unfold removeCsetOf
+  rw [List.filter_filter]
+  apply List.filter_congr
+  intro e _
+  by_cases h : e.loc ∈ new.map (·.loc)
+  · simp [h]
+  · have : e.loc ∉ keptNames id id new := by
+      unfold keptNames
+      rw [List.mem_flatMap]
+      rintro ⟨x, hx, hm⟩
+      apply h
+      rw [List.mem_map]
+      refine ⟨x, hx, ?_⟩
+      rcases List.mem_cons.mp hm with h1 | h1
+      · exact h1.symm
+      · split at h1
+        · exact (List.mem_singleton.mp h1).symm
+        · cases h1
+    simp [h, this]
+
 /-! ## a concrete root and contents used by the non-vacuity examples -/
 
 def exPre : Fs :=
